@@ -251,8 +251,8 @@ where
     C: Collect,
 {
     fn on_register_dispatch(&self, collector: &Dispatch) {
-        self.subscriber.on_register_dispatch(collector);
         self.inner.on_register_dispatch(collector);
+        self.subscriber.on_register_dispatch(collector);
     }
 
     fn on_subscribe(&mut self, collect: &mut C) {
